@@ -1,13 +1,14 @@
 (* C03 — Committed entries are permanent (leader completeness, durable acks).
-   PARTIAL.  Proved in this file's cone (per-server / per-leadership facts the global argument
-   rests on); the global statement "every later leader holds every committed entry" is the
-   classical inductive argument over all runs and is NOT proved here - it is checked on real
+   ALL RUNS (C03_leader_completeness_all_runs, end of file): in every reachable state of the cluster
+   with commitment (Model/ClusterCommit.v) a leader whose term is at least the term of a running
+   server holds every entry that server knows to be committed.  PARTIAL: runs without snapshots,
+   InstallSnapshot, membership changes and RestoreCommittedLogs; those are checked on real
    histories by the monitors leader-misses-committed-entry, committed-index-reassigned,
-   committed-entry-deleted. *)
+   committed-entry-deleted.  The rest of the file: the per-server / per-leadership facts. *)
 From Coq Require Import List NArith.
 From stdpp Require Import gmap.
-From RaftModel Require Import Base Config Commitment Node NodeCodec Leader.
-From RaftProofs Require Import CommitmentProofs LeaderProofs AppendProofs VoteProofs.
+From RaftModel Require Import Base Config Commitment Node NodeCodec Leader Cluster ClusterLog ClusterCommit.
+From RaftProofs Require Import CommitmentProofs LeaderProofs AppendProofs VoteProofs ClusterCommitSpec ClusterCommitMain ClusterCommitLog ClusterProofs.
 Open Scope N_scope.
 
 (* current-term rule at the call site: a new leader's commitment starts above everything its log
@@ -62,3 +63,21 @@ Example C03_figure8 :
   map (fun ops => cm_commit (cm_run (l_cm (leader_setup s)) ops))
       [[CMatch 2 4; CMatch 3 4]; [CMatch 1 5; CMatch 2 4; CMatch 3 4]; [CMatch 1 5; CMatch 2 5]] = [0; 0; 5].
 Proof. vm_compute. reflexivity. Qed.
+
+
+(* ================= LEADER COMPLETENESS OVER ALL RUNS (Model/ClusterCommit.v) =================
+   For EVERY run of the cluster with commitment (as for C02_state_machine_safety_all_runs: elections,
+   dispatchLogs, replicateTo from each follower's nextIndex, arbitrary delay / duplication /
+   reordering / loss of requests and answers, commitment.match, the leader loop, restarts, store
+   failures and crash cuts inside every handler) from a freshly booted cluster, in every reachable
+   state: a Leader whose term is at least the term of a running server holds, at the same index,
+   every entry that server knows to be committed - committed entries are on every later leader and
+   are never re-assigned.  The proof is the classical one (an entry committed by counting matches of
+   the leader's own term is on a majority; a later leader was voted by a majority; the up-to-date
+   check and Log Matching), carried by an invariant with ghost records of leaderships, acceptances
+   and votes, by strong induction on terms. *)
+Theorem C03_leader_completeness_all_runs : forall cfg g0 ls g,
+  cinit_ok cfg g0 -> Forall label_ok ls -> crun false [cfg] g0 ls = Some g ->
+  leader_complete g.
+Proof. intros cfg g0 ls g H0 Hl Hr. destruct (state_machine_safety cfg g0 ls g H0 Hl Hr) as (_ & A & _). exact A. Qed.
+Print Assumptions C03_leader_completeness_all_runs.
